@@ -38,6 +38,17 @@ def str_eq(ex, a, b):
     if a.is_concrete() and b.is_concrete():
         return a.chars == b.chars
     if any(isinstance(c, SymPiece) for c in a.chars + b.chars):
+        # decimal rendering is injective: two texts that agree outside aligned formatted integers are equal iff those integers are
+        if len(a.chars) == len(b.chars) and all(isinstance(x, SymPiece) == isinstance(y, SymPiece) for x, y in zip(a.chars, b.chars)):
+            conds = []
+            for x, y in zip(a.chars, b.chars):
+                if isinstance(x, SymPiece):
+                    if x.signed != y.signed or x.expr.size() != y.expr.size():
+                        raise Unsupported('comparison of differently typed formatted symbolic integers')
+                    conds.append(simp_bool(x.expr == y.expr))
+                else:
+                    conds.append((x == y) if isinstance(x, int) and isinstance(y, int) else simp_bool(bv(x, 32) == bv(y, 32)))
+            return and_all(ex, conds)
         raise Unsupported('comparison of text containing a formatted symbolic integer')
     if len(a.chars) != len(b.chars):
         return False
